@@ -777,3 +777,88 @@ func runU7(c *core.Ctx) {
 		c.Undecided("ast/chunk-alloc", token.NoPos, "no chunk allocation in a single-slot store found")
 	}
 }
+
+// U8: count-down walks reject negative indexes. nodeAt / pairAt compensate for soft-deleted
+// slots with a loop that decrements the wanted index for every live slot and returns the slot
+// at which it becomes negative. An index that is negative on entry satisfies that exit test at
+// the first slot.
+
+func init() {
+	register(&core.Rule{ID: "U8", Min: 2, Arm64: true,
+		Doc: "Count-down index walks in package ast: in every function that has an int parameter i, a loop that decrements i and returns a slot under `i < 0`, the loop is preceded (source order) by a guard `if i < 0 { return ... }` - otherwise a negative index resolves to the first slot.",
+		Run: runU8})
+}
+
+func runU8(c *core.Ctx) {
+	p := c.Prog
+	pk := p.Pkg("ast")
+	n := 0
+	for _, fd := range core.FuncDecls(pk) {
+		if fd.Body == nil {
+			continue
+		}
+		var params []types.Object
+		for _, fl := range fd.Type.Params.List {
+			if exprStr(fl.Type) == "int" {
+				for _, nm := range fl.Names {
+					params = append(params, p.ObjectOf(nm))
+				}
+			}
+		}
+		for _, ip := range params {
+			// a loop that decrements ip and tests ip < 0
+			var loopPos token.Pos
+			ast.Inspect(fd.Body, func(nd ast.Node) bool {
+				fs, ok := nd.(*ast.ForStmt)
+				if !ok {
+					return true
+				}
+				dec, test := false, false
+				ast.Inspect(fs.Body, func(x ast.Node) bool {
+					switch y := x.(type) {
+					case *ast.IncDecStmt:
+						if id, ok := y.X.(*ast.Ident); ok && p.ObjectOf(id) == ip && y.Tok == token.DEC {
+							dec = true
+						}
+					case *ast.BinaryExpr:
+						if id, ok := ast.Unparen(y.X).(*ast.Ident); ok && p.ObjectOf(id) == ip && y.Op == token.LSS && exprStr(y.Y) == "0" {
+							test = true
+						}
+					}
+					return true
+				})
+				if dec && test && loopPos == token.NoPos {
+					loopPos = fs.Pos()
+				}
+				return true
+			})
+			if loopPos == token.NoPos {
+				continue
+			}
+			n++
+			fn := core.FuncName(pk, fd)
+			c.Analysed(fn)
+			guarded := false
+			ast.Inspect(fd.Body, func(nd ast.Node) bool {
+				is, ok := nd.(*ast.IfStmt)
+				if !ok || is.Pos() >= loopPos {
+					return true
+				}
+				if be, ok := ast.Unparen(is.Cond).(*ast.BinaryExpr); ok && be.Op == token.LSS && exprStr(be.Y) == "0" {
+					if id, ok := ast.Unparen(be.X).(*ast.Ident); ok && p.ObjectOf(id) == ip {
+						for _, st := range is.Body.List {
+							if _, isRet := st.(*ast.ReturnStmt); isRet {
+								guarded = true
+							}
+						}
+					}
+				}
+				return true
+			})
+			c.Check(guarded, fn+"/negative-index", loopPos, "negative indexes are rejected before the count-down walk", "the count-down walk over the slots is entered with a possibly negative "+ip.Name()+": its exit test `"+ip.Name()+" < 0` is then true at the first slot, so Index(-1) / SetByIndex(-1, x) on a node with unset slots resolve to the first element")
+		}
+	}
+	if n == 0 {
+		c.Undecided("ast/negative-index", token.NoPos, "no count-down walk found")
+	}
+}
